@@ -118,6 +118,34 @@ CHECKS = {
         "minimax barrier inside the window).",
    technique="Lean 4 proof over the selector model + regenerated kernel bridge + exact-grid differential correspondence",
    ref="DESIGN.md §4 C17"),
+ "C13": dict(
+   text="Lean refinement of the stored attempt history to an identity-level history (minima with immutable identities) "
+        "over all interleavings of connection rounds (serial and parallel), remove_minimum, remove_minima / bounds "
+        "pruning, add_network with its index map, reset and dump/read: the stored history is always the rendering of "
+        "the identity-level one, entries naming a removed minimum dropped; every pair of a round is recorded once, "
+        "sorted, searched or not; check_pair refuses iff self-pair, connected, or recorded >= 3 times, and the searched "
+        "list is exactly the accepted pairs (against the evolving network in serial mode, the initial one in parallel "
+        "mode); negation witnesses for the pre-repair behaviour. The check_pair kernel and the history rules of "
+        "remove_minimum / add_network / the round are regenerated from the source (bridge lemmas); real rounds in "
+        "serial and multiprocessing mode interleaved with real removal, merge and I/O are compared after every op.",
+   note="the network effect of a merge/round and the index map are observed inputs of the history model; which "
+        "identities a bulk removal deletes is C02's theorem.",
+   technique="Lean 4 proof (refinement over all interleavings) + regenerated kernels with bridge lemmas + scripted "
+             "serial/multiprocessing correspondence",
+   ref="DESIGN.md §4 C13"),
+ "C06": dict(
+   text="Lean round-trip theorem over a model of the five tables with numpy's loadtxt shape rules, np.size and "
+        "indexing as partial operations: for every coherent network with n >= 1 minima, any transition states "
+        "(incl. self-connections), dimension k >= 1 and any history, readNetwork (the loader spec regenerated from "
+        "the current source) of dumpNetwork returns the same labels, coordinates, edges with data on the same pairs, "
+        "counts and history, energies rounded to 5 decimals; negation theorems for the original loader (single "
+        "minimum / single TS / 1-D coordinates -> IndexError, empty history wrong shape). Real dump->read on all small "
+        "shapes and random larger ones compared with the model; numpy shape rules validated table by table.",
+   note="decimal formatting/parsing of floats (%.18e round-trips binary64, %8.5f rounds) is a validated contract; "
+        "round5 is abstract and idempotent.",
+   technique="Lean 4 proof (round trip over all shapes) about the loader spec regenerated from the source + numpy "
+             "shape-rule contract validation + real-file correspondence",
+   ref="DESIGN.md §4 C06"),
 }
 
 NOT_YET = {}
